@@ -212,8 +212,12 @@ pub mod tab {
             };
         }
 
-        if trailing > 0 && unchanged {
-            // statement is silent about blanks after the word; leaving the line alone is fine
+        if trailing > 0 && unchanged && pre.cursor > end {
+            // a blank has been typed after the word and the cursor is behind it: the statement
+            // does not settle whether that already "starts an argument"; leaving the line
+            // alone is fine (completing is fine too, below). With the cursor in or right
+            // behind the word the blanks are merely to its right: the line is a single
+            // partially typed word and must be completed.
             return Ok(());
         }
 
@@ -307,5 +311,11 @@ mod tests {
         assert!(tab::check(&Line::at_end("s"), &names, 2, &Line::at_end("s")).is_ok());
         assert!(tab::check(&Line::at_end("x"), &names, 9, &Line::at_end("x")).is_ok());
         assert!(tab::check(&Line::at_end("set a"), &names, 9, &Line::at_end("set a")).is_ok());
+        // trailing blank, cursor behind it: both outcomes fine; cursor right behind the word: must complete
+        assert!(tab::check(&Line::at_end("s "), &names, 9, &Line::at_end("s ")).is_ok());
+        assert!(tab::check(&Line::at_end("s "), &names, 9, &Line::at_end("set ")).is_ok());
+        let pre = Line { text: "s ".chars().collect(), cursor: 1 };
+        assert!(tab::check(&pre, &names, 9, &pre).is_err());
+        assert!(tab::check(&pre, &names, 9, &Line::at_end("set ")).is_ok());
     }
 }
